@@ -104,7 +104,7 @@ func genRunAt(w *bufio.Writer, rng *rand.Rand, run int, stats map[string]int, sh
 			n.tr = newTracker()
 			n.inc = inc
 			n.tpb = timeDur(tpb)
-			n.maxTpb = timeDur(tpb * int64(2+rng.Intn(3)))
+			n.maxTpb = timeDur(tpb * []int64{4, 5, 6, 8, 12, 16}[rng.Intn(6)] / 4) // maximum block time from 1x to 4x the block time
 			n.epoch += shift
 			n.s14 = obs
 		})
